@@ -1,21 +1,27 @@
 //! One module per property: generator + monitor + replay
 use std::collections::HashMap;
 
+pub mod c01;
 pub mod c02;
 pub mod c03;
 pub mod c04;
+pub mod c05;
 pub mod c06;
 pub mod c14;
+pub mod c20;
 pub mod dec_common;
 
 pub fn dispatch(cmd: &str, id: &str, pos: &[String], flags: &HashMap<String, String>) -> i32 {
     use crate::run_prop;
     match id {
+        "C01" => run_prop::<c01::C01>(cmd, pos, flags),
         "C02" => run_prop::<c02::C02>(cmd, pos, flags),
         "C03" => run_prop::<c03::C03>(cmd, pos, flags),
         "C04" => run_prop::<c04::C04>(cmd, pos, flags),
+        "C05" => run_prop::<c05::C05>(cmd, pos, flags),
         "C06" => run_prop::<c06::C06>(cmd, pos, flags),
         "C14" => run_prop::<c14::C14>(cmd, pos, flags),
+        "C20" => run_prop::<c20::C20>(cmd, pos, flags),
         _ => {
             eprintln!("unknown property {id}");
             64
